@@ -37,17 +37,27 @@ def helper2(sig, val, c):
     sig <<= val + 1
 
 
-def helper3(a, b, c, d):
-    r = a
+def helper4(x, c, d, flag):
     if c:
-        r = b
         if d:
-            return r | a
-    return r & b
+            return x + 1
+        flag <<= True
+    return x
+
+
+def helper5(x, y, c, d):
+    if c:
+        if d:
+            return x
+    else:
+        if d:
+            return y
+        return x ^ y
+    return x & y
 
 '''
 
-LOCALS = {"loc": ("Signal", U(3)), "lv": ("Variable", U(3))}
+LOCALS = {"loc": ("Signal", U(3)), "lv": ("Variable", U(3)), "lb": ("Signal", BV(2))}
 
 
 def render(body_lines, reset="sync", ename="Seq", use_arr=False, locals_used=(), extra_objs=None):
@@ -59,6 +69,7 @@ def render(body_lines, reset="sync", ename="Seq", use_arr=False, locals_used=(),
               "    o1 = Port.output(Unsigned[3], default=Null)", "    o2 = Port.output(Unsigned[3], default=Null)",
               "    ob = Port.output(Bit, default=Null)", "    ov = Port.output(BitVector[4], default=Null)",
               "    p = Port.output(Unsigned[3], default=Unsigned[3](5))", "    oa = Port.output(Unsigned[2], default=Null)",
+              "    pv = Port.output(BitVector[3], default=BitVector[3]('010'))",
               "    def architecture(self):",
               "        x = Variable[Unsigned[3]](Null, name='x')", "        y = Variable[Unsigned[3]](Null, name='y')"]
     if use_arr:
@@ -79,7 +90,7 @@ def render(body_lines, reset="sync", ename="Seq", use_arr=False, locals_used=(),
     if reset != "none":
         objs["reset"] = Obj("reset", BIT, "in")
     objs.update({"o1": Obj("o1", U(3), "out", 0), "o2": Obj("o2", U(3), "out", 0), "ob": Obj("ob", BIT, "out", 0),
-                 "ov": Obj("ov", BV(4), "out", 0), "p": Obj("p", U(3), "out", 5), "oa": Obj("oa", U(2), "out", 0),
+                 "ov": Obj("ov", BV(4), "out", 0), "p": Obj("p", U(3), "out", 5), "oa": Obj("oa", U(2), "out", 0), "pv": Obj("pv", BV(3), "out", 2),
                  "x": Obj("x", U(3), "var", 0), "y": Obj("y", U(3), "var", 0)})
     if use_arr:
         objs["arr"] = Obj("arr", ArrTy(U(2), 4), "signal", 0)
@@ -126,8 +137,11 @@ def simple_stmt(rng, used):
         return [f"self.{rng.choice(['o1', 'o2'])} <<= {e}"]
     if r < 0.40:
         return [f"{rng.choice(['x', 'y'])} @= {e}"]
-    if r < 0.50:
+    if r < 0.47:
         return [f"self.p ^= {e}"]
+    if r < 0.50:
+        k = rng.randint(0, 2)
+        return [f"self.pv[{k}] ^= {rng.choice(['self.c', 'self.d', 'True'])}"] if rng.random() < 0.7 else ["self.pv[2:1] ^= self.sel"]
     if r < 0.58:
         hi = rng.randint(1, 3)
         lo = rng.randint(0, hi)
@@ -146,7 +160,11 @@ def simple_stmt(rng, used):
         return [f"{t} = {e}", f"self.{rng.choice(['o1', 'o2'])} <<= {t} + 1"]
     if r < 0.88:
         return [f"helper2(self.{rng.choice(['o1', 'o2'])}, {rng.choice(['self.a', 'x', 'self.b'])}, {rng.choice(CONDS[:4])})"]
-    return [f"self.o1 <<= helper1(self.a, self.b, {rng.choice(CONDS[:3])}, {rng.choice(CONDS[:3])})"]
+    if r < 0.94:
+        return [f"self.o1 <<= helper1(self.a, self.b, {rng.choice(CONDS[:3])}, {rng.choice(CONDS[:3])})"]
+    if r < 0.97:
+        return [f"self.{rng.choice(['o1', 'o2'])} <<= helper4({rng.choice(['self.a', 'x', 'self.b'])}, {rng.choice(CONDS[:3])}, {rng.choice(CONDS[:3])}, self.ob)"]
+    return [f"self.{rng.choice(['o1', 'o2'])} <<= helper5(self.a, {rng.choice(['x', 'self.b'])}, {rng.choice(CONDS[:3])}, {rng.choice(CONDS[:3])})"]
 
 
 def indent(lines):
@@ -202,6 +220,11 @@ CORE = [
     ["if self.c:", "    self.p ^= self.a"],
     ["self.p ^= self.a", "if self.d:", "    self.p ^= self.b"],
     ["if self.c:", "    self.p.push = self.b", "self.o1 <<= self.p"],
+    # pushes of bits / slices: the whole vector returns to its default in steps without push
+    ["if self.c:", "    self.pv[0] ^= self.d"],
+    ["if self.c:", "    self.ob <<= True", "    self.pv[0] ^= self.d", "elif self.d:", "    self.pv[2] ^= True", "else:", "    self.o1 <<= self.a"],
+    ["self.pv[2:1] ^= self.sel", "if self.c:", "    self.pv[0] ^= self.d"],
+    ["if self.d:", "    self.pv ^= self.a.bitvector", "self.pv[1] ^= self.c"],
     # slices and bits
     ["self.ov[3:2] <<= self.sel", "self.ov[0] <<= self.c"],
     ["self.ov <<= self.sel @ self.sel", "if self.c:", "    self.ov[2:1] <<= self.a[1:0]"],
@@ -222,6 +245,10 @@ CORE = [
     ["self.o1 <<= helper1(self.a, self.b, self.c, self.d)", "self.o2 <<= helper1(x, self.a, self.d, self.c)"],
     ["helper2(self.o1, self.a, self.c)", "helper2(self.o2, x, self.d)"],
     ["t = helper0(self.a, x, self.c)", "x @= t", "self.o1 <<= t + x"],
+    ["self.o1 <<= helper4(self.a, self.c, self.d, self.ob)", "self.o2 <<= helper4(x, self.d, self.c, self.ov[0])"],
+    ["self.o1 <<= helper4(self.a, self.c, self.d, self.ob)", "self.o2 <<= self.b", "x @= x + 1"],
+    ["self.o1 <<= helper5(self.a, self.b, self.c, self.d)"],
+    ["x @= helper5(x, self.a, self.d, self.c)", "self.o2 <<= helper4(x, self.c, self.d, self.ob) + 1"],
     # python-level names merged over branches
     ["t = self.a & self.b", "if self.c:", "    self.o1 <<= t", "else:", "    self.o2 <<= t + 1"],
     # if-expressions / select_with
@@ -237,6 +264,13 @@ CORE_LOCAL = [
     (["loc = Signal[Unsigned[3]](self.a + 1, name='loc')", "if self.c:", "    loc <<= self.b", "self.o1 <<= loc"], ("loc",)),
     (["lv = Variable[Unsigned[3]](self.a, name='lv')", "lv @= lv + x", "self.o1 <<= lv"], ("lv",)),
     (["lv = Variable[Unsigned[3]](x, name='lv')", "x @= self.b", "self.o1 <<= lv", "self.o2 <<= x"], ("lv",)),
+]
+
+CORE_LOCAL += [
+    (["lb = Signal[BitVector[2]](self.sel, name='lb')", "self.ov[1:0] <<= lb", "self.ob <<= lb[0]", "if lb[1]:", "    self.o1 <<= self.a"], ("lb",)),
+    (["lb = Signal[BitVector[2]](self.sel, name='lb')", "self.ov[3] <<= lb[1]", "self.ov[0] <<= lb[0]", "self.o2 <<= self.a if lb[1] else self.b"], ("lb",)),
+    (["loc = Signal[Unsigned[3]](self.a, name='loc')", "self.ob <<= loc[2]", "self.ov[1:0] <<= loc[1:0]", "self.o1 <<= loc + 1"], ("loc",)),
+    (["lv = Variable[Unsigned[3]](self.a, name='lv')", "self.ob <<= lv[0]", "lv @= lv + 1", "self.ov[2:0] <<= lv[2:0]"], ("lv",)),
 ]
 
 CORE_ARR = [
